@@ -24,7 +24,7 @@ FORMATS = {
              "what": "dpkg status (var/lib/dpkg/status, status.d/*)"},
     "requirements": {"level": "byte", "files": ["Formats/Requirements.v", "Formats/RequirementsProofs.v"],
                      "theorems": ["requirements_roundtrip_on_D", "requirements_roundtrip_refuted"], "full_spec": True,
-                     "what": "requirements.txt (pinned name==version sub-grammar; full statement REFUTED, theorem on domain D, see KNOWN_FINDINGS.d/C03.json)"},
+                     "what": "requirements.txt (pinned name==version sub-grammar; full statement REFUTED for dotted / one-letter names, theorem on domain D, see KNOWN_FINDINGS.d/C03.json)"},
     "composer": {"level": "struct", "files": ["Formats/Structs.v", "Formats/StructsProofs.v"], "theorems": ["composer_struct_exact"], "what": "composer.lock"},
     "cargo": {"level": "struct", "files": [], "theorems": ["cargo_struct_exact"], "what": "Cargo.lock"},
     "poetry": {"level": "struct", "files": [], "theorems": ["poetry_struct_exact"], "what": "poetry.lock"},
@@ -211,6 +211,23 @@ def run(ctx):
     shard_res = run_all_shards(ctx, list(FORMATS), d)
     known = ctx.known_findings()
     known_replay = {}
+    # regression corpus first: witnesses of findings that were fixed in /repo must now satisfy the full statement
+    regress = []
+    try:
+        regress = [e for e in json.load(open(os.path.join(vlib.VERIF, "KNOWN_FINDINGS.d", "C03.json"))) if e.get("status") == "fixed"]
+    except FileNotFoundError:
+        pass
+    for e in regress:
+        res = replay_known(ctx, binp, e)
+        known_replay[e["id"] + " (fixed, regression)"] = res
+        if res["still_fails"]:
+            ctx.violation({"kind": "regression-of-fixed-finding", "finding": e["id"], "fix_commit": e.get("fix_commit"),
+                           "case": {"format": e["witness"]["format"], "bytes_b64": e["witness"]["bytes_b64"], "coq_claim": e["witness"]["coq_claim"],
+                                    "path": e["witness"].get("path", ""), "text": e["witness"].get("text"), "expected": e["witness"].get("expected")},
+                           "replay": res, "explanation": "the witness of a defect that was fixed fails again on this tree"})
+        elif not res["model_agrees"]:
+            ctx.violation({"kind": "correspondence-broken", "finding": e["id"], "replay": res, "theorems_no_longer_tied_to_code": THEOREMS,
+                           "explanation": "regression witness: implementation satisfies the statement but the model disagrees with it"}, nofail=True)
     for e in known:
         res = replay_known(ctx, binp, e)
         known_replay[e["id"]] = res
